@@ -245,3 +245,150 @@ def junk_jobs(prop, tier, seed):
                 continue
             jobs.append(dict(harness='pipe_clean', label=f'{name} holes={sizes}', params=dict(tpl=instantiate(tpl, sizes), prop=prop, junk=True, cfg=JUNK_CFG)))
     return jobs
+
+
+# ---------------------------------------------------------------- line-level helpers
+def split_lines(bs):
+    """split at concrete line breaks (holes used in line-level templates never contain '\\n')"""
+    lines, cur = [], []
+    for b in bs:
+        if isinstance(b, int) and b == 10:
+            lines.append(cur)
+            cur = []
+        else:
+            cur.append(b)
+    lines.append(cur)
+    return lines
+
+
+class Blanks:
+    """which bytes are known blank / known non-blank: concrete values, or membership of a hole of class ind / nb"""
+
+    def __init__(self, ctx, src, parts):
+        self.blank_ids = set()
+        self.nonblank_ids = set()
+        for p in parts:
+            if p['kind'] == 'hole':
+                for b in src[p['start']:p['end']]:
+                    if is_sym(b):
+                        if p['cls'] in ('ind', 'sp'):
+                            self.blank_ids.add(b.get_id())
+                        elif p['cls'] == 'nb':
+                            self.nonblank_ids.add(b.get_id())
+
+    def is_blank(self, b):
+        if isinstance(b, int):
+            return b in (32, 9)
+        i = b.get_id()
+        if i in self.blank_ids:
+            return True
+        if i in self.nonblank_ids:
+            return False
+        raise ValueError('blankness of this byte is not fixed by its hole class')
+
+    def strip(self, line):
+        s, e = 0, len(line)
+        while s < e and self.is_blank(line[s]):
+            s += 1
+        while e > s and self.is_blank(line[e - 1]):
+            e -= 1
+        return line[s:e]
+
+    def indent(self, line):
+        s = 0
+        while s < len(line) and self.is_blank(line[s]):
+            s += 1
+        return s
+
+    def nonblank_lines(self, bs):
+        return [l for l in (self.strip(x) for x in split_lines(bs)) if l]
+
+
+def lines_equal(a, b):
+    if len(a) != len(b):
+        return False
+    return b_and(len(x) == len(y) and b_and(same(p, q) for p, q in zip(x, y)) for x, y in zip(a, b))
+
+
+def show_lines(ls):
+    return [''.join(chr(b) if isinstance(b, int) and 32 <= b < 127 else '?' for b in l) for l in ls]
+
+
+def unwrap_doc(p):
+    """block document around one unwrap element with k lines between its tags"""
+    k = p['k']
+    hs = p['holes']  # dict slot -> size
+    g = lambda name, cls: H(hs.get(name, 0), cls)
+    tpl = []
+    if p.get('pre', 1):
+        tpl += [g('pre_i', 'ind'), "A", g('pre_t', 'nb'), "\n"]
+    tpl += [g('tag_i', 'ind'), O(p.get('tag', 'm'), p.get('attrs', RX + ' unwrap-block')), "\n"]
+    for j in range(k):
+        kind = p.get('body', {}).get(str(j), 'code')
+        if kind == 'blank':
+            tpl += [g(f'b{j}_i', 'ind'), "\n"]
+        elif kind == 'ready':     # a nested ready default-strategy element occupying three inner lines
+            tpl += [g(f'b{j}_i', 'ind'), O('t', RT), "\n", g(f'b{j}_t', 'nb'), "z\n", g(f'b{j}_j', 'ind'), C('t'), "\n"]
+        elif kind == 'pending':
+            tpl += [g(f'b{j}_i', 'ind'), O('t', PT), "\n", g(f'b{j}_t', 'nb'), "z\n", g(f'b{j}_j', 'ind'), C('t'), "\n"]
+        else:
+            tpl += [g(f'b{j}_i', 'ind'), "L%d" % j, g(f'b{j}_t', 'nb'), "\n"]
+    tpl += [g('ctag_i', 'ind'), C(p.get('tag', 'm'))]
+    if p.get('post', 1):
+        tpl += ["\n", g('post_i', 'ind'), "B", g('post_t', 'nb')]
+    if p.get('final_nl', 1):
+        tpl += ["\n"]
+    return tpl
+
+
+@harness('c11_unwrap', covers=['exactly-two-lines-between', 'fewer-than-two-lines', 'three-or-more-lines', 'nested-ready-inner'])
+def c11_unwrap(ctx, p):
+    ds, de = [60], [62]
+    cfg = cfg_from(p)
+    tpl = unwrap_doc(p)
+    src, parts = render(ctx, tpl, ds, de)
+    B = Blanks(ctx, src, parts)
+    ready, pending, allel = evaluate(src, parts, cfg)
+    # k counts *lines* between the tag lines (a nested 3-line element contributes 3)
+    o = [x for x in parts if x['kind'] == 'open'][0]
+    c = [x for x in parts if x['kind'] == 'close'][-1]
+    nlines = sum(1 for b in src[o['end']:c['start']] if isinstance(b, int) and b == 10) - 1
+    ctx.cover('exactly-two-lines-between' if nlines == 2 else ('fewer-than-two-lines' if nlines < 2 else 'three-or-more-lines'))
+    if any(v == 'ready' for v in p.get('body', {}).values()):
+        ctx.cover('nested-ready-inner')
+    out = ctx.impl.clean(src, ds, de, cfg)
+    mask = extent_mask(len(src), ready)
+    if nlines < 2:
+        # left completely untouched, tags included (nested ready elements are still removed on their own account)
+        if not ready:
+            ctx.check(len(out) == len(src) and b_and(same(a, b) for a, b in zip(src, out)),
+                      f'unwrap element with {nlines} line(s) between its tags must be left untouched', 'unwrap-with-short-body-changed')
+        return
+    expected = B.nonblank_lines([b if not mask[i] else 10 for i, b in enumerate(src)])
+    got = B.nonblank_lines(out)
+    ctx.check(lines_equal(got, expected), f'surviving non-blank lines {show_lines(got)} != input minus the four unwrap lines {show_lines(expected)}',
+              (lambda: 'two-line-body-not-unwrapped' if nlines == 2 and len(got) > len(expected) else 'unwrap-lines-mismatch'))
+
+
+def c11_jobs(tier, seed):
+    rnd = random.Random(seed + 5)
+    jobs = []
+    kmax = 4 if tier == 'quick' else 6
+    hole_sets = [dict(tag_i=2, ctag_i=1, b0_i=2), dict(b0_t=2, b1_t=1), dict(pre_t=2, post_i=2), dict(b1_i=2, b2_i=2, b0_i=1)]
+    if tier != 'quick':
+        hole_sets += [dict(tag_i=2, b0_i=2, b1_i=2, b2_i=2), dict(tag_i=1, ctag_i=2, b1_t=2, b2_i=2), dict(pre_i=2, tag_i=2, ctag_i=2, post_i=2),
+                      dict(b0_i=3, b1_i=3, b2_t=2)]
+    for k in range(0, kmax + 1):
+        for hs in hole_sets:
+            for pre, post in ((1, 1), (0, 1), (1, 0)):
+                if tier == 'quick' and (pre, post) != (1, 1) and k not in (2, 3):
+                    continue
+                jobs.append(dict(harness='c11_unwrap', label=f'unwrap k={k} pre={pre} post={post} holes={hs}',
+                                 params=dict(k=k, pre=pre, post=post, holes=hs)))
+    for k, body in [(3, {'1': 'ready'}), (3, {'1': 'pending'}), (4, {'1': 'blank', '2': 'ready'}), (2, {'0': 'blank'}), (3, {'0': 'blank', '2': 'blank'}),
+                    (4, {'2': 'blank'})]:
+        for hs in hole_sets[:3]:
+            jobs.append(dict(harness='c11_unwrap', label=f'unwrap k={k} body={body} holes={hs}', params=dict(k=k, body=body, holes=hs)))
+    for tag, attrs in (('t', RT + ' unwrap-block'), ('m', PN + ' unwrap-block')):
+        jobs.append(dict(harness='c11_unwrap', label=f'unwrap k=3 tag={tag} {attrs}', params=dict(k=3, tag=tag, attrs=attrs, holes=hole_sets[0])))
+    return jobs
